@@ -1192,3 +1192,34 @@ theorem C10_facts_response_body_selection :
       ["f(protomsg.ProtoReflect(), nil)", "traverseFieldPath(protomsg.ProtoReflect(), t.req.Binding.ResponseBodyPath)", "f(msg, fd)"] ∧
     GB.Generated.c10RespTranscodeAssigns = [("fd", 1), ("msg", 1)] := by
   decide
+
+/-- **The flat `response_body` model of the end-to-end scenarios is the nested model on a flat message type**: for every
+    message type all of whose fields are scalar (singular / repeated / map of scalars), `GB.C10.traverseFieldPath` — the
+    selection `C10_success` speaks about — is `RP.traverse` followed by forgetting the (empty) sub-message path. -/
+theorem C10_response_body_flat_agrees (sch : RP.RSchema) (root : RP.RDesc)
+    (hflat : ∀ f ∈ root, ∃ c k, f.ty = .leaf c k) (path : Bytes) :
+    traverseFieldPath (root.map (·.name)) path =
+      (RP.traverse sch root path).map (fun sel => match sel with
+        | none => Selected.whole
+        | some (_, fd) => Selected.field fd.name) :=
+  RP.traverse_flat sch root hflat path
+
+/-- the response type of the e2e scenarios (google.rpc.ResourceInfo: four string fields) as a nested-model descriptor -/
+def respFieldsDesc : RP.RDesc := respFields.map (fun n => ⟨n, .leaf .sing .string⟩)
+
+/-- … in particular the selection in `C10_success` / `C10_stream_lts_refines_serve` (`traverseFieldPath respFields sc.rbp`)
+    is the nested model's, so `C10_response_body_*` (addressed field, rendered value, laws from C09) apply to it. -/
+theorem C10_success_selection_is_nested_model (path : Bytes) :
+    traverseFieldPath respFields path =
+      (RP.traverse [respFieldsDesc] respFieldsDesc path).map (fun sel => match sel with
+        | none => Selected.whole
+        | some (_, fd) => Selected.field fd.name) := by
+  have h := RP.traverse_flat [respFieldsDesc] respFieldsDesc (by
+    intro f hf
+    simp only [respFieldsDesc, List.mem_map] at hf
+    obtain ⟨n, _, rfl⟩ := hf
+    exact ⟨.sing, .string, rfl⟩) path
+  have hn : respFieldsDesc.map (·.name) = respFields := by
+    simp [respFieldsDesc, List.map_map, Function.comp_def]
+  rw [hn] at h
+  exact h
